@@ -17,12 +17,14 @@ callback panicked never "succeeds", least of all with an empty action (C18), and
 open Lean Flyt Flyt.Codec Flyt.Spec
 
 namespace Driver.PanicFam
-open Driver.FlowFam (LeafCfgJ LeafScriptJ leafCfgOf leafScriptOf)
+open Driver.FlowFam (LeafCfgJ LeafScriptJ BatchCfgJ BatchScriptJ leafCfgOf leafScriptOf batchCfgOf batchScriptOf)
 
 structure ScJ where
   kind : String
   leaf : Option LeafCfgJ := none
   leafScript : Option LeafScriptJ := none
+  batch : Option BatchCfgJ := none
+  batchScript : Option BatchScriptJ := none
   panicAt : String := ""
   panicVal : String := ""
   tag : String := ""
@@ -52,9 +54,52 @@ def panicRun (kind : CtxKind) (cfg : LeafCfg) (scr : LeafScript) (site : String)
       let r0 := runLeaf kind 0 0 0 cfg scr .live
       some (r0.1, r0.2.2, false)
 
+/-- the model's run of a SEQUENTIAL batch in which exec attempt `k` of item `i` panics ("b<i>:<k>"): the run of the same batch with
+    that attempt failing, cut right after the event of that very exec call (nothing runs after a panic: no retry, no fallback, no
+    later item, no post); if the attempt is never reached the run is the ordinary one. (trace, outcome, panicked?) -/
+def panicBatchRun (kind : CtxKind) (cfg : BatchCfg) (scr : BatchScript) (site : String) : Option (List Ev × Outcome × Bool) :=
+  match (site.drop 1).toString.splitOn ":" with
+  | [si, sk] =>
+    match si.toNat?, sk.toNat? with
+    | some i, some k =>
+      let bad : Out Val := { res := .error reserved }
+      let scr' : BatchScript := { scr with item := fun j => if j == i then { scr.item j with exec := fun a => if a == k then bad else (scr.item j).exec a } else scr.item j }
+      let r := runBatch kind 0 0 0 cfg scr' .live
+      let isSite : Ev → Bool := fun e => match e with | .bexec _ _ i' k' _ => i' == i && k' == k | _ => false
+      (match r.1.findIdx? isSite with
+       | some p => some (r.1.take (p + 1), r.2.2, true)
+       | none => let r0 := runBatch kind 0 0 0 cfg scr .live; some (r0.1, r0.2.2, false))
+    | _, _ => none
+  | _ => none
+
+def handleBatch (s : ScJ) (o : Driver.WaitFam.ObsJ) (bc : BatchCfgJ) (bs : BatchScriptJ) : Json :=
+  match batchCfgOf bc, batchScriptOf bs with
+  | some cfg, some scr =>
+    if cfg.conc != 0 then Json.mkObj [("badop", Json.str "panic family: sequential batches only (a panic on a pool goroutine ends the process)")] else
+    let kind := if s.kind == "deadline" then CtxKind.deadline else .canceled
+    match panicBatchRun kind cfg scr s.panicAt with
+    | none => Json.mkObj [("badop", Json.str s!"bad panicAt {s.panicAt}")]
+    | some (tr, out, panicked) =>
+      let mtrace := tr.map evStr
+      let mout := if panicked then "P" else outStr out
+      let agree := o.trace == mtrace && o.out == mout
+      let noSuccess := !panicked || !(o.out.startsWith "A")
+      let failStop := !panicked || o.trace.length ≤ mtrace.length      -- no callback after the panicking one: no later item, no post
+      let spec := noSuccess && failStop && (!panicked || o.out == "P")
+      let keys := ["C09", "C06", "C07", "C04", "C01", "C18"]
+      Json.mkObj [("agree", Json.bool agree),
+        ("spec", Json.mkObj (keys.map fun k => (k, Json.bool spec))),
+        ("specModel", Json.mkObj (keys.map fun k => (k, Json.bool true))),
+        ("nontrivial", Json.mkObj (keys.map fun k => (k, Json.bool panicked))),
+        ("model", Json.mkObj [("trace", toJson mtrace), ("out", Json.str mout)])]
+  | _, _ => Json.mkObj [("badop", Json.str "bad batch cfg / script")]
+
 def handle (sc obs : Json) : Json :=
   match fromJson? (α := ScJ) sc, fromJson? (α := Driver.WaitFam.ObsJ) obs with
   | .ok s, .ok o =>
+    match s.batch, s.batchScript with
+    | some bc, some bs => handleBatch s o bc bs
+    | _, _ =>
     match s.leaf, s.leafScript with
     | some lc, some ls =>
       match leafCfgOf lc, leafScriptOf ls with
